@@ -19,7 +19,7 @@ Record lcdc_flags := mkLcdc {
 Record stat_flags := mkStat {
   coincidenceInterrupt : bool; oamInterrupt : bool; vblankInterrupt : bool; hblankInterrupt : bool
 }.
-(* a palette: four 2-bit shades; for OBP0/OBP1 entry 0 is never written and stays 0 *)
+(* a palette: four 2-bit shades (BGP, OBP0, OBP1 alike) *)
 Record pal := mkPal { c0 : N; c1 : N; c2 : N; c3 : N }.
 
 Record ppu := mkPpu {
@@ -144,15 +144,13 @@ Definition pal_byte (q : pal) : N :=
 Definition ppu_write_bgp (p : ppu) (v : N) : ppu :=
   set_pals p (mkPal (N.land v 3) (two v 2) (two v 4) (two v 6)) (p_obp0 p) (p_obp1 p).
 Definition ppu_read_bgp (p : ppu) : N := pal_byte (p_bgp p).
-(* OBP0/OBP1: entry 0 keeps its value (0 from construction) *)
+(* OBP0/OBP1: all four entries, as BGP (repaired: entry 0 used to be dropped, so bits 1-0 read 0) *)
 Definition ppu_write_obp0 (p : ppu) (v : N) : ppu :=
-  set_pals p (p_bgp p) (mkPal (c0 (p_obp0 p)) (two v 2) (two v 4) (two v 6)) (p_obp1 p).
-Definition ppu_read_obp0 (p : ppu) : N :=
-  let q := p_obp0 p in u8 (u8 (shl8 (c3 q) 6 + shl8 (c2 q) 4) + shl8 (c1 q) 2).
+  set_pals p (p_bgp p) (mkPal (N.land v 3) (two v 2) (two v 4) (two v 6)) (p_obp1 p).
+Definition ppu_read_obp0 (p : ppu) : N := pal_byte (p_obp0 p).
 Definition ppu_write_obp1 (p : ppu) (v : N) : ppu :=
-  set_pals p (p_bgp p) (p_obp0 p) (mkPal (c0 (p_obp1 p)) (two v 2) (two v 4) (two v 6)).
-Definition ppu_read_obp1 (p : ppu) : N :=
-  let q := p_obp1 p in u8 (u8 (shl8 (c3 q) 6 + shl8 (c2 q) 4) + shl8 (c1 q) 2).
+  set_pals p (p_bgp p) (p_obp0 p) (mkPal (N.land v 3) (two v 2) (two v 4) (two v 6)).
+Definition ppu_read_obp1 (p : ppu) : N := pal_byte (p_obp1 p).
 
 (* videoRAM[addr-0x8000]: unguarded *)
 Definition ppu_read_vram (p : ppu) (addr : N) : res N :=
